@@ -217,7 +217,7 @@ macro_rules! ss_feedback {
 //@fn SendRateComp::{step, handle_feedback, update_rtt, update_rto}, RecvRateSet updates, compute_initial_send_rate
 //@bound first feedback (no RTT state), RTT sample 50 ms; X, receive rate, ceiling, rate-limited flag, times symbolic; no loss
 ss_feedback!(o14_2_slow_start_first_feedback_50, None, 50);
-//@h props=C14,C13,C03 tier=quick timeout=900 role=rate-slowstart-feedback
+//@h props=C13,C14,C03 tier=quick timeout=900 role=rate-slowstart-feedback
 //@fn SendRateComp::{step, handle_feedback, update_rtt, update_rto}, RecvRateSet updates, compute_initial_send_rate
 //@bound RTT state 150 ms, sample 50 ms; X, receive rate, ceiling, flags, times symbolic; no loss
 ss_feedback!(o14_2_slow_start_feedback_150_50, Some(150), 50, doubling);
